@@ -397,3 +397,15 @@ def de_async(text):
     t, n = re.subn(r"\basync fn\b", "fn", text)
     t, k = re.subn(r"\s*\.await\b", "", t)
     return t, n + k
+
+
+def inline_self_reborrow(text):
+    """R15: `let NAME[: &mut Self] = &mut *self;` is removed and NAME becomes `self` throughout (Pin erased: the reborrow is
+    the identity). NAME is whatever /repo calls it (historically `this`)."""
+    m = re.search(r"let (\w+)(?:\s*:\s*&mut Self)? = &mut \*self;\n", text)
+    if not m:
+        return text, 0
+    name = m.group(1)
+    out = text[:m.start()] + text[m.end():]
+    out, n = re.subn(r"\b%s\b" % re.escape(name), "self", out)
+    return out, n + 1
